@@ -18,7 +18,15 @@ func init() {
 func C01_Jobs() []string {
 	return append(shapeJobs(), "hist/two-dest-types/parse", "hist/two-dest-types/validate", "hist/catch-then-ptr", "hist/shared-leaf")
 }
-func C02_Jobs() []string   { return shapeJobs() }
+func C02_Jobs() []string {
+	out := shapeJobs()
+	// the same exact comparison after an earlier execution that panicked in a user callback
+	// below the top level and was recovered (paths must still be rooted at this call's root)
+	for _, j := range []string{"parse/T2/int/d1", "parse/T2/slice/d0", "validate/T2/struct/d1", "parse/T4/nested/d1", "parse/T3/int/d1", "parse/T1/int/d1"} {
+		out = append(out, "afterpanic/"+j)
+	}
+	return out
+}
 func C01_Covers() []string { return []string{"no-issues", "issues"} }
 func C02_Covers() []string { return []string{"no-issues", "issues"} }
 
@@ -123,6 +131,10 @@ func C01_Run(job string) {
 }
 
 func C02_Run(job string) {
+	if len(job) > 11 && job[:11] == "afterpanic/" {
+		c07Prior("panicking")
+		job = job[11:]
+	}
 	sh := buildShape(job)
 	o := runReal(sh)
 	want := sh.want(o)
